@@ -127,7 +127,7 @@ pub fn run(ctx: &Ctx) {
         cases.push(b.clone());
     }
     ctx.sse_vec("fault_positions_sse", &format!("{} base cases (key encrypt/decrypt, hooked loops) x every call index on every side x 8 fault kinds", bases.len()), cases, check);
-    ctx.pbt("pbt_small", ctx.n(60_000, 1_500_000), || strat(op_strategy().boxed(), false), check);
+    ctx.pbt("pbt_small", ctx.n(150_000, 1_500_000), || strat(op_strategy().boxed(), false), check);
     ctx.pbt("pbt_64k_chunks", ctx.n(3_000, 60_000), || strat(prop_oneof![Just(Op::KeyEnc), Just(Op::KeyDec)].boxed(), true), check);
     ctx.pbt("pbt_pass_mode", ctx.n(120, 2_500), || strat(prop_oneof![Just(Op::PassEnc), Just(Op::PassDec)].boxed(), false), check);
 }
